@@ -10,9 +10,9 @@
   are added (modelled as the pair, `Prod` addition).  The negligibility tests
   `abs(Coeff) < Tolerance / ToleranceDivisor` and
   `abs(ResCoeff) < Tolerance / ToleranceDivisor && abs(NonResCoeff) < Tolerance / ToleranceDivisor`
-  are written here by hand after `TwoParticleGFPart.h` (their tolerances `tolNegligibleNonRes`,
-  `tolNegligibleRes` are extracted); the behaviour of the real containers on merge-heavy inputs is compared
-  with the definition by the pipeline cases of C02 / C12 (free clusters, exact cancellations).
+  are EXTRACTED as well (`Gen.Chi4.termNegligibleNonRes`, `Gen.Chi4.termNegligibleRes`, and their tolerances
+  `tolNegligibleNonRes`, `tolNegligibleRes`); the behaviour of the real containers on merge-heavy inputs is
+  compared with the definition by the pipeline cases of C02 / C12 (free clusters, exact cancellations).
 
   What is proved, for EVERY sequence of terms handed to `add_term`, every positive comparison
   tolerance and every negligibility tolerance:
@@ -29,7 +29,7 @@ import PomerolModel.Properties.C01
 import PomerolModel.Properties.C02
 
 namespace Pomerol.Properties.C02Terms
-open Pomerol Pomerol.Model.TermList Pomerol.Properties.C01
+open Pomerol Pomerol.Spec Pomerol.Model.TermList Pomerol.Properties.C01
 
 /-- key of a two-particle term: `(isz4 | isz1z2, Poles[0], Poles[1], Poles[2])` -/
 abbrev Key := Bool × ℝ × ℝ × ℝ
@@ -38,12 +38,13 @@ abbrev Key := Bool × ℝ × ℝ × ℝ
 noncomputable def keyLess (tol : ℝ) (a b : Key) : Bool :=
   Gen.Chi4.termLess a.1 a.2.1 a.2.2.1 a.2.2.2 b.1 b.2.1 b.2.2.1 b.2.2.2 tol
 
-/-- `NonResonantTerm::IsNegligible` -/
-noncomputable def neglNonRes (ntol : ℝ) (c : ℂ) (n : ℕ) : Bool := decide (‖c‖ < ntol / (n : ℝ))
+/-- `NonResonantTerm::IsNegligible` (EXTRACTED: `Gen.Chi4.termNegligibleNonRes`) at container size `n` -/
+noncomputable def neglNonRes (ntol : ℝ) (c : ℂ) (n : ℕ) : Bool :=
+  Gen.Chi4.termNegligibleNonRes c ntol (n : ℝ)
 
-/-- `ResonantTerm::IsNegligible` on `(ResCoeff, NonResCoeff)` -/
+/-- `ResonantTerm::IsNegligible` (EXTRACTED: `Gen.Chi4.termNegligibleRes`) on `(ResCoeff, NonResCoeff)` -/
 noncomputable def neglRes (ntol : ℝ) (c : ℂ × ℂ) (n : ℕ) : Bool :=
-  decide (‖c.1‖ < ntol / (n : ℝ)) && decide (‖c.2‖ < ntol / (n : ℝ))
+  Gen.Chi4.termNegligibleRes c.1 c.2 ntol (n : ℝ)
 
 /-- THE EXTRACTED COMPARISON IS IRREFLEXIVE for every positive tolerance: no term is less than
 itself (the two `real_eq` tests succeed at equal poles and `q₂ − p₂ ≥ Tolerance` fails). -/
@@ -91,7 +92,7 @@ theorem nonresonant_terms_budget (tol ntol : ℝ) (htol : 0 < tol) (ts : List (T
   obtain ⟨h1, h2, h3⟩ := container_budget tol htol (neglNonRes ntol) ts
   refine ⟨h1, h2, fun x hx => ?_⟩
   obtain ⟨n, hn, h⟩ := h3 x hx
-  exact ⟨n, hn, by simpa [neglNonRes] using h⟩
+  exact ⟨n, hn, by simpa [neglNonRes, Gen.Chi4.termNegligibleNonRes, Bridge.abs_eq] using h⟩
 
 /-- RESONANT TERMS: both coefficients are conserved and every dropped term has BOTH
 `|ResCoeff| < Tolerance / n` and `|NonResCoeff| < Tolerance / n` for some `n ≥ 1` (a term with one
@@ -113,7 +114,7 @@ theorem resonant_terms_budget (tol ntol : ℝ) (htol : 0 < tol) (ts : List (Term
   · simp at h
   · obtain ⟨n, hn, h⟩ := h
     refine ⟨n, hn, ?_⟩
-    simpa [neglRes] using h
+    simpa [neglRes, Gen.Chi4.termNegligibleRes, Bridge.abs_eq] using h
 
 /-- IN THE EXACT IDEALISATION (tolerance-free comparison: only terms with EQUAL keys are
 equivalent) the value of the non-resonant container is conserved as well, at every frequency
